@@ -32,7 +32,7 @@ class SimThreadDeadlock(Exception):
 
 class SimThread:
     __slots__ = ("name", "fn", "thread", "resume", "done", "result", "exc", "pred",
-                 "wait_label", "daemon", "id", "started", "serving")
+                 "wait_label", "daemon", "id", "started", "serving", "nblocks")
 
     def __init__(self, id, name, fn, daemon):
         self.id = id
@@ -48,6 +48,7 @@ class SimThread:
         self.thread = None
         self.started = False
         self.serving = None  # pool workers: the simulated thread whose job is being run
+        self.nblocks = 0     # how often this thread had to wait in block_until
 
 
 def cur():
@@ -188,6 +189,7 @@ class SimThreads:
             raise SimAbort()
         me.pred = pred
         me.wait_label = label
+        me.nblocks += 1
         self.ctl.release()
         me.resume.acquire()
         me.pred = None
@@ -318,6 +320,9 @@ class SimLock:
             return False
         self.contended += 1
         s.probe("lock_contended")
+        if timeout == 0:
+            s.record("lock.timeout", me.id)     # a zero timeout never waits
+            return False
         if timeout is not None and timeout >= 0:
             # a timed wait on a held lock: the tape decides whether the timeout
             # expires first (0 = it does) or the wait lasts until the lock is free
